@@ -989,7 +989,7 @@ def scenario(rng, world):
     loops nested in a light loop while the caller has values pending; a routine defined inside a branch that
     is not taken or a loop body; index variables of caller and callee loops."""
     kind = rng.choice(['shadow', 'shadow', 'shadow', 'unwind', 'unwind', 'nested_def', 'nested_def', 'loop_in_loop',
-                       'arg_alias', 'arg_alias', 'paramless_local', 'paramless_local', 'computed_sources'])
+                       'arg_alias', 'arg_alias', 'paramless_local', 'paramless_local', 'computed_sources', 'late_macro'])
     g = rng.choice(['a', 'x', 'n', 'level'])
     items = []
     if kind == 'shadow':
@@ -1058,6 +1058,19 @@ def scenario(rng, world):
         items.append(('repeat in %s as lx %s' % (' and '.join(t for t, _ in srcs), b[0]),
                       '(SRepeat (LIn %s "lx" None) %s)' % (coq_list([c for _, c in srcs]), b[1])))
         items.append(K.pr(K.lit(999)))
+    elif kind == 'late_macro':
+        # a macro defined after a routine whose parameter / local has the same name: inside the routine the name is still the parameter
+        p1 = rng.choice(['level', 'n', 'amount'])
+        loc = rng.choice(['tmp', 'acc2'])
+        items.append(K.define('show', [p1], [K.pr(K.var(p1)), K.assign(p1, K.expr(*K.e_bin('+', K.e_var(p1), K.e_lit(1)))), K.ret(K.var(p1))]))
+        items.append(K.define('twice', [p1, 'other'], [K.assign(loc, K.expr(*K.e_bin('*', K.e_var(p1), K.e_lit(2)))), K.pr(K.var(loc)),
+                                                     K.ret(K.expr(*K.e_bin('+', K.e_var(loc), K.e_var('other'))))]))
+        items.append(('define %s 50' % p1, '(SDefineMacro %s (MLit (LInt 50)))' % coq_str(p1)))
+        items.append(('define %s 70' % loc, '(SDefineMacro %s (MLit (LInt 70)))' % coq_str(loc)))
+        items.append(K.pr(K.r_call('show', [K.lit(7)])))
+        items.append(K.pr(K.r_call('twice', [K.lit(4), K.lit(1)])))
+        items.append(K.pr(('%s' % p1, '(RMacro %s)' % coq_str(p1))))
+        items.append(K.call('show', [('%s' % loc, '(RMacro %s)' % coq_str(loc))]))
     elif kind == 'arg_alias':
         # arguments are evaluated in the caller's scope: a caller variable named like one of the callee's parameters
         p1, p2 = rng.choice([('a', 'b'), ('h', 's'), ('x', 'n')])
